@@ -254,6 +254,33 @@ pub fn check_snapshot(c: &SnapCase, rec: &mut Rec) -> Result<(), String> {
             }
         }
     }
+    // the loaded program now writes the very byte the previous program wrote last: a ULA write like
+    // any other, the border must follow it
+    mach::poke_bytes(&mut e, &mut mm, BASE + 0x20, &[0x3E, c.prior & 7, 0xD3, 0xFE, 0xF3, 0x18, 0xFE]);
+    mach::set_regs(&mut e, &RegFile { pc: BASE + 0x20, sp: 0xBF00, ..Default::default() });
+    mach::run_frames(&mut e, 3)?;
+    rec.eval();
+    let got: u8 = e.border_color().into();
+    if got != c.prior & 7 {
+        return Err(format!(
+            "program before the snapshot wrote {0} to the ULA, the snapshot set border {1}, the loaded program wrote {0} again: border_color() = {2}",
+            c.prior & 7, c.border & 7, got
+        ));
+    }
+    let fb = e.border_buffer();
+    for y in 0..240usize {
+        for x in 0..320usize {
+            if (32..288).contains(&x) && (24..216).contains(&y) {
+                continue;
+            }
+            if fb.px[y * 320 + x] != c.prior & 7 {
+                return Err(format!(
+                    "program before the snapshot wrote {0} to the ULA, the snapshot set border {1}, the loaded program wrote {0} again: two frames later border pixel ({2}, {3}) shows {4:#04x}",
+                    c.prior & 7, c.border & 7, x, y, fb.px[y * 320 + x]
+                ));
+            }
+        }
+    }
     if c.border & 7 != c.prior & 7 {
         rec.nontrivial(fnv(format!("{:?}", c).as_bytes()));
     }
@@ -304,7 +331,7 @@ pub fn replay(run: &mut Run, phase: &str, case: &serde_json::Value) -> Result<()
 }
 
 pub const LEVEL: &str = "exploration";
-pub const RULE: &str = "case = machine x looping DI program of 1..40 segments (DJNZ delay 0..255 iterations + 0..5 NOPs, then OUT (0xFE),A or OUT (C),A to a generated even port with any value) plus optional long idle so that some frames contain no write, started at a generated frame offset, run for 2..5 judged frames; the reference machine executes the same program and timestamps every ULA port write; after each completed frame every one of the 27648 border pixels must show a colour that was current within 8 T-states (16 pixels) of the moment the beam was there (change instant = anywhere inside the I/O cycle), and border_color() must equal the low three bits of the last write; second phase: the border stored in a loaded SNA is reported and shown. non-trivial = judged frame with >= 2 colour changes of which >= 1 falls inside the visible border raster (snapshot phase: border differs from the previous one); distinct = hash of (case, frame)";
+pub const RULE: &str = "case = machine x looping DI program of 1..40 segments (DJNZ delay 0..255 iterations + 0..5 NOPs, then OUT (0xFE),A or OUT (C),A to a generated even port with any value) plus optional long idle so that some frames contain no write, started at a generated frame offset, run for 2..5 judged frames; the reference machine executes the same program and timestamps every ULA port write; after each completed frame every one of the 27648 border pixels must show a colour that was current within 8 T-states (16 pixels) of the moment the beam was there (change instant = anywhere inside the I/O cycle), and border_color() must equal the low three bits of the last write; second phase: the border stored in a loaded SNA is reported and shown, and a ULA write by the loaded program of the byte the previous program had written last is followed like any other. non-trivial = judged frame with >= 2 colour changes of which >= 1 falls inside the visible border raster (snapshot phase: border differs from the previous one); distinct = hash of (case, frame)";
 pub const ASSUMPTIONS: &[&str] = &[
     "write timestamps come from the reference machine (reference Z80 + contention model), trusted through calibration, C03 and C04",
     "border buffer geometry: 320x240, pixel (x,y) at T = first-picture-pixel T + (y-24)*line + (x-32)/2 (property text); the central 256x192 area is not judged; the colour before the first write of a run is not judged",
